@@ -187,7 +187,7 @@ def analyse(rep, ob, sets, rules=("R1", "R2", "R3", "R4", "R5"), prefix=""):
         for prod in (roots.PK_PRODUCERS if ("R3" in rules or "R4" in rules) else []):
             for root in ("verify", "hash_verify", "internal_verify"):
                 jid = "%s:any:%s/%s" % (s, root, prod)
-                J.append((jid, n[root], {"pk": prod, "len.ctx": "0..255", "probe": "hashing::rej_ntt_poly"}))
+                J.append((jid, n[root], {"pk": prod, "len.ctx": "0..255", "probe": "hashing::rej_ntt_poly|hashing::sample_in_ball"}))
                 M[jid] = ("R34", prod, root)
         for root in (("verify", "hash_verify", "internal_verify") if "R5" in rules else ()):
             for cn, rng in (("eq256", "256..256"), ("ge257", "257..max")):
@@ -244,6 +244,7 @@ def analyse(rep, ob, sets, rules=("R1", "R2", "R3", "R4", "R5"), prefix=""):
                 ob(oks, "R3:challenge-from-whole-ctilde:%s" % root, {"rule": "R3 SampleInBall absorbs the whole decoded c-tilde (exact copy of the first lambda/4 signature bytes)", "entry": j["root"], "set": s,
                                                                      "sites": [x["rendered"][:160] for x in sib], "tags": [x["items"][0].get("tag") for x in sib]})
                 st.sampler_fill(j, ob, "R3:%s/%s" % (root, cname), {"rej_ntt_poly": P["k"] * P["l"]})
+                st.sample_in_ball_shape(j, P, ob, "R3:%s/%s" % (root, cname), sib)
                 uh = sum(v for c, v in j["calls"].items() if c == "high_low::use_hint")
                 ob(uh == 256 * P["k"], "R3:use-hint-all:%s" % root, {"rule": "R3 UseHint is applied to all 256*k coefficients", "entry": j["root"], "set": s, "use_hint_calls": uh})
         # R4: obligations on verify paths
